@@ -80,6 +80,8 @@ class Cog20(ExactSolver):
         bigGamma = self.Gamma
         k = self.geometry - 1.
         c1 = 1 - self.a * t
+        if c1 <= 0:
+            raise ValueError("The time t must be less than 1/a")
         shock_location = self.u0 * (self.gamma - 1) / (4 * self.a)
         shock_location = shock_location * t * (1 - 2 * self.a * t) / c1
 
